@@ -73,6 +73,9 @@ inductive Comb where
   | checkErrors                                    -- `self.check_errors()` (called per statement, also inside nested blocks)
   | advanceChunk                                   -- `_advance_chunk()` guarded by `_chunk_index < len(_chunks)`
   | atEnd                                          -- `self._index >= self._tokens_size` as a truthy/None result
+  | subConfined (l : Level) (toks : List Nat) (body : Comb)
+      -- a sub-parser: a FRESH parser run at the fixed level `l` over its own tokens, whose ParseError (if any) is
+      -- caught by the caller (`to_json_path`'s `except ParseError`) or cannot arise (DataType.build at IGNORE)
   deriving Repr, Inhabited
 
 structure Cfg where
@@ -163,6 +166,12 @@ def tryCatch (idx : Nat) (saved : Level) (retreat : Bool) : Res → Res
   | .exc _ s => tryFinish idx saved retreat .none s
   | .diverge => .diverge
 
+/-- what the outer parser sees of a confined sub-parser run: its tree (None if it failed); the outer state is untouched -/
+def subFinish (s : St) : Res → Res
+  | .ok t _ => .ok t s
+  | .exc _ _ => .ok .none s
+  | .diverge => .diverge
+
 /-- the interpreter; every recursive call spends one unit of fuel -/
 def exec (cfg : Cfg) : Nat → Comb → St → Res
   | 0, _, _ => .diverge
@@ -186,6 +195,7 @@ def exec (cfg : Cfg) : Nat → Comb → St → Res
   | _ + 1, .checkErrors, s => checkErrors cfg s
   | _ + 1, .advanceChunk, s => advanceChunk cfg s
   | _ + 1, .atEnd, s => atEnd s
+  | n + 1, .subConfined l toks body, s => subFinish s (exec cfg n body { level := l, toks := toks })
 
 /-- `Parser.reset()` followed by the constructor's level -/
 def init (l : Level) : St := { level := l }
@@ -213,6 +223,61 @@ def Res.tree? : Res → Option Tree
   | .ok t _ => some t
   | _ => none
 
+/-! ### sub-parsers whose errors propagate, and builders that raise ParseError directly
+
+  `XComb` adds the two things the source also does and that the level contract does NOT survive:
+    * `subParse l toks body` — `exp.maybe_parse(comment, into=exp.Hint)` in `_parse_hint`: a fresh parser at its own level
+      (IMMEDIATE by default); a ParseError it raises travels through the outer parser whatever that one's level is;
+    * `hardRaise m` — `raise ParseError(...)` that does not go through `raise_error`
+      (`build_date_delta_with_interval`, `alias_(None)` → `maybe_parse(None)`).
+  `confined` programs use neither and are exactly the `Comb` programs (`toComb`). -/
+inductive XComb where
+  | core (c : Comb)
+  | seq (tag : Nat) (a b : XComb)
+  | orElse (a b : XComb)
+  | tryParse (c : XComb) (retreat : Bool)
+  | subParse (l : Level) (toks : List Nat) (body : XComb)
+  | hardRaise (m : Msg)
+  deriving Repr, Inhabited
+
+def XComb.confined : XComb → Bool
+  | .core _ => true
+  | .seq _ a b => a.confined && b.confined
+  | .orElse a b => a.confined && b.confined
+  | .tryParse c _ => c.confined
+  | .subParse _ _ _ => false
+  | .hardRaise _ => false
+
+def XComb.toComb : XComb → Comb
+  | .core c => c
+  | .seq tag a b => .node tag a.toComb b.toComb
+  | .orElse a b => .orElse a.toComb b.toComb
+  | .tryParse c r => .tryParse c.toComb r
+  | .subParse l toks body => .subConfined l toks body.toComb
+  | .hardRaise _ => .eps
+
+/-- a propagating sub-parser run as the outer parser sees it: its tree, or its ParseError — re-raised as is -/
+def subPropagate (s : St) : Res → Res
+  | .ok t _ => .ok t s
+  | .exc e _ => .exc e s
+  | .diverge => .diverge
+
+def xexec (cfg : Cfg) : Nat → XComb → St → Res
+  | 0, _, _ => .diverge
+  | n + 1, .core c, s => exec cfg (n + 1) c s
+  | n + 1, .seq tag a b, s =>
+    (xexec cfg n a s).bind fun ra s1 => (xexec cfg n b s1).bind fun rb s2 => .ok (.node tag ra rb) s2
+  | n + 1, .orElse a b, s => (xexec cfg n a s).bind fun ra s1 => if ra.truthy then .ok ra s1 else xexec cfg n b s1
+  | n + 1, .tryParse c retreat, s =>
+    tryCatch s.pos s.level retreat (xexec cfg n c { s with level := .immediate })
+  | n + 1, .subParse l toks body, s => subPropagate s (xexec cfg n body { level := l, toks := toks })
+  | _ + 1, .hardRaise m, s => .exc (Exn.single m) s
+
+def xrun (cfg : Cfg) (fuel : Nat) (p : XComb) (l : Level) : Res := xexec cfg fuel p (init l)
+
+/-- errors.merge_errors: the `.errors` lists of the collected ParseErrors, concatenated in order -/
+def mergeErrors (es : List (List Msg)) : List Msg := es.flatten
+
 def firstNonempty : List (List Msg) → Option (List Msg)
   | [] => none
   | [] :: bs => firstNonempty bs
@@ -227,6 +292,7 @@ inductive GComb where
   | unsupported (m : Msg)
   | seq (a b : GComb)
   | unsupportedArgs (diags : List (Bool × Msg)) (body : GComb)
+  | hard (m : Msg)     -- `raise UnsupportedError(...)` that does not go through `self.unsupported` (exasol GROUP BY ALL, unnest_to_explode)
   deriving Repr, Inhabited
 
 structure GSt where
@@ -258,6 +324,7 @@ def gexec : GComb → GSt → GRes
   | .unsupported m, s => unsupported m s
   | .seq a b, s => (gexec a s).bind fun ta s1 => (gexec b s1).bind fun tb s2 => .ok (ta ++ tb) s2
   | .unsupportedArgs ds body, s => (unsupportedAll ds s).bind fun _ s1 => gexec body s1
+  | .hard m, s => .exc [m] 0 s
 
 /-- outcome of `Generator.generate`: text, the WARNING records emitted, or an UnsupportedError -/
 inductive GOut where
@@ -284,6 +351,7 @@ def gtext : GComb → String
   | .unsupported _ => ""
   | .seq a b => gtext a ++ gtext b
   | .unsupportedArgs _ body => gtext body
+  | .hard _ => ""
 
 def diagMsgs (ds : List (Bool × Msg)) : List Msg := (ds.filter (·.1)).map (·.2)
 
@@ -292,6 +360,15 @@ def gmsgs : GComb → List Msg
   | .unsupported m => [m]
   | .seq a b => gmsgs a ++ gmsgs b
   | .unsupportedArgs ds body => diagMsgs ds ++ gmsgs body
+  | .hard _ => []
+
+/-- no direct `raise UnsupportedError` is reached -/
+def gNoHard : GComb → Bool
+  | .text _ => true
+  | .unsupported _ => true
+  | .seq a b => gNoHard a && gNoHard b
+  | .unsupportedArgs _ body => gNoHard body
+  | .hard _ => false
 
 /-! ### the source facts the lemmas were proved for (compared with Generated/C14.lean by `decide`) -/
 
@@ -351,6 +428,93 @@ def expectedSkeletons : List (String × List String) := [
   ("concat_messages", ["0:set:msg=ListComp(Call(str)(e) for Sub(errors,Slice(?:maximum)))", "0:set:remaining=Sub(Call(len)(errors),maximum)", "0:if:Cmp(remaining,Gt,0)", "1:call:msg.append(JoinedStr)", "0:return:Call(<expr>.join)(msg)"]),
   ("Generator.unsupported", ["0:if:Cmp(self.unsupported_level,Eq,ErrorLevel.IMMEDIATE)", "1:raise:Call(UnsupportedError)(message)", "0:call:<expr>.append(message)"]),
   ("Generator.generate", ["0:if", "0:set:self.unsupported_messages=[]", "0:set:sql=Call(<expr>.strip)", "0:if", "1:set:sql=Call(sql.replace)(self.SENTINEL_LINE_BREAK,'\\n')", "0:if:Cmp(self.unsupported_level,Eq,ErrorLevel.IGNORE)", "1:return:sql", "0:if:Cmp(self.unsupported_level,Eq,ErrorLevel.WARN)", "1:for:self.unsupported_messages", "2:call:logger.warning(msg)", "0:else", "1:if:And(Cmp(self.unsupported_level,Eq,ErrorLevel.RAISE),self.unsupported_messages)", "2:raise:Call(UnsupportedError)(Call(concat_messages)(self.unsupported_messages,self.max_unsupported))", "0:return:sql"])
+]
+
+/-! ### direct raises and nested parsers (audited allow-lists, compared with Generated/C14.lean by `decide`) -/
+
+/-- every `raise ParseError(…)` on the parsing side.  Audit: `Parser.check_errors` is THE raise of level RAISE (modelled);
+    `Parser.parse_into` wraps the failures of a top-level entry point (outside a running parse, except through
+    `maybe_parse(into=…)` sub-parsers); `jsonpath.parse*` raise inside `Dialect.to_json_path`, which catches ParseError
+    (confined: `Comb.subConfined`); `maybe_parse` raises "SQL cannot be None" for a None argument (`XComb.hardRaise`; reached
+    through `alias_(None)` before the T-SQL repair); `build_date_delta_with_interval._builder` raises "INTERVAL expression
+    expected" directly (`XComb.hardRaise`, known finding C14-builder-raises-parseerror). -/
+def expectedParseErrorRaiseSites : List (String × String × String) := [
+  ("sqlglot/parser.py", "Parser.parse_into", "ParseError"),
+  ("sqlglot/parser.py", "Parser.check_errors", "ParseError"),
+  ("sqlglot/jsonpath.py", "parse._match", "ParseError"),
+  ("sqlglot/jsonpath.py", "parse._parse_bracket", "ParseError"),
+  ("sqlglot/jsonpath.py", "parse", "ParseError"),
+  ("sqlglot/jsonpath.py", "parse", "ParseError"),
+  ("sqlglot/expressions/core.py", "maybe_parse", "ParseError"),
+  ("sqlglot/dialects/dialect.py", "build_date_delta_with_interval._builder", "ParseError")
+]
+
+/-- every `raise UnsupportedError(…)` on the generating side.  Audit: `Generator.unsupported` (IMMEDIATE) and
+    `Generator.generate` (RAISE) are the modelled ones; the three in `transforms.unnest_to_explode` and the one in
+    `generators/exasol._group_by_all` ignore `unsupported_level` (`GComb.hard`, known findings C14-hard-unsupported-1..3). -/
+def expectedUnsupportedRaiseSites : List (String × String × String) := [
+  ("sqlglot/generator.py", "Generator.generate", "UnsupportedError"),
+  ("sqlglot/generator.py", "Generator.unsupported", "UnsupportedError"),
+  ("sqlglot/transforms.py", "unnest_to_explode._unnest_zip_exprs", "UnsupportedError"),
+  ("sqlglot/transforms.py", "unnest_to_explode", "UnsupportedError"),
+  ("sqlglot/transforms.py", "unnest_to_explode", "UnsupportedError"),
+  ("sqlglot/generators/exasol.py", "_group_by_all", "UnsupportedError")
+]
+
+/-- nested parser / tokenizer constructions reachable from parsing, with the `error_level` argument they pass.  Audit:
+    `Parser._parse_hint → maybe_parse` runs at the default IMMEDIATE and its error propagates (`XComb.subParse`, known finding
+    C14-hint-subparser-raises); `DataType.from_str → parse_one(error_level=IGNORE)` and every `to_json_path` are confined
+    (`Comb.subConfined`); `AthenaParser` passes its own level to its two delegates; `Dialect.parse / parse_into / tokenize`
+    are the entry points; `Parser._parse_types → self.dialect.tokenize` re-tokenizes one identifier (no parser); `alias_` re-parses only
+    strings (its Expr arguments pass through `maybe_parse` untouched, None raises — see above). -/
+def expectedNestedParserSites : List (String × String × String × String × String) := [
+  ("sqlglot/dialects/athena.py", "Athena.Tokenizer.tokenize", "tokenize", "-", "3"),
+  ("sqlglot/dialects/dialect.py", "Dialect.parse", "parser", "-", "1"),
+  ("sqlglot/dialects/dialect.py", "Dialect.parse", "tokenize", "-", "1"),
+  ("sqlglot/dialects/dialect.py", "Dialect.parse_into", "parse_into", "-", "1"),
+  ("sqlglot/dialects/dialect.py", "Dialect.parse_into", "parser", "-", "1"),
+  ("sqlglot/dialects/dialect.py", "Dialect.parse_into", "tokenize", "-", "1"),
+  ("sqlglot/dialects/dialect.py", "Dialect.to_json_path", "parse_json_path", "-", "1"),
+  ("sqlglot/dialects/dialect.py", "Dialect.tokenize", "tokenize", "-", "1"),
+  ("sqlglot/dialects/dialect.py", "explode_to_unnest_sql", "alias_", "-", "1"),
+  ("sqlglot/dialects/dialect.py", "filter_array_using_unnest", "alias_", "-", "1"),
+  ("sqlglot/dialects/dialect.py", "timestrtotime_sql", "build", "-", "1"),
+  ("sqlglot/dialects/duckdb.py", "DuckDB.to_json_path", "to_json_path", "-", "1"),
+  ("sqlglot/expressions/core.py", "Expression.as_", "alias_", "-", "1"),
+  ("sqlglot/expressions/core.py", "Expression.isin", "maybe_parse", "-", "2"),
+  ("sqlglot/expressions/core.py", "Expression.type", "build", "-", "1"),
+  ("sqlglot/expressions/core.py", "_apply_builder", "maybe_parse", "-", "1"),
+  ("sqlglot/expressions/core.py", "_apply_child_list_builder", "maybe_parse", "-", "1"),
+  ("sqlglot/expressions/core.py", "_apply_list_builder", "maybe_parse", "-", "1"),
+  ("sqlglot/expressions/core.py", "_apply_set_operation", "maybe_parse", "-", "1"),
+  ("sqlglot/expressions/core.py", "alias_", "maybe_parse", "-", "1"),
+  ("sqlglot/expressions/core.py", "condition", "maybe_parse", "-", "1"),
+  ("sqlglot/expressions/core.py", "maybe_parse", "parse_one", "-", "1"),
+  ("sqlglot/expressions/core.py", "paren", "maybe_parse", "-", "1"),
+  ("sqlglot/expressions/datatypes.py", "DataType.from_str", "parse_one", "ErrorLevel.IGNORE", "1"),
+  ("sqlglot/expressions/datatypes.py", "DataType.is_type", "build", "-", "1"),
+  ("sqlglot/jsonpath.py", "parse", "tokenize", "-", "1"),
+  ("sqlglot/parser.py", "Parser", "to_json_path", "-", "3"),
+  ("sqlglot/parser.py", "Parser._implicit_unnests_to_explicit", "alias_", "-", "1"),
+  ("sqlglot/parser.py", "Parser._parse_hint", "maybe_parse", "-", "1"),
+  ("sqlglot/parser.py", "Parser._parse_json_value", "to_json_path", "-", "1"),
+  ("sqlglot/parser.py", "Parser._parse_types", "tokenize", "-", "1"),
+  ("sqlglot/parser.py", "Parser._values_to_select", "alias_", "-", "1"),
+  ("sqlglot/parser.py", "build_extract_json_with_path._builder", "to_json_path", "-", "1"),
+  ("sqlglot/parser.py", "build_json_extract", "to_json_path", "-", "1"),
+  ("sqlglot/parser.py", "build_json_extract_scalar", "to_json_path", "-", "1"),
+  ("sqlglot/parsers/athena.py", "AthenaParser.__init__", "AthenaTrinoParser", "error_level", "1"),
+  ("sqlglot/parsers/athena.py", "AthenaParser.__init__", "parser", "error_level", "1"),
+  ("sqlglot/parsers/athena.py", "AthenaParser.parse_into", "parse_into", "-", "2"),
+  ("sqlglot/parsers/bigquery.py", "BigQueryParser._parse_table_parts", "alias_", "-", "1"),
+  ("sqlglot/parsers/hive.py", "HiveParser", "to_json_path", "-", "1"),
+  ("sqlglot/parsers/oracle.py", "OracleParser._parse_json_exists", "to_json_path", "-", "1"),
+  ("sqlglot/parsers/postgres.py", "PostgresParser._parse_jsonb_exists", "to_json_path", "-", "1"),
+  ("sqlglot/parsers/postgres.py", "PostgresParser._parse_user_defined_type", "build", "-", "1"),
+  ("sqlglot/parsers/singlestore.py", "SingleStoreParser._parse_vector_expressions", "build", "-", "1"),
+  ("sqlglot/parsers/snowflake.py", "SnowflakeParser", "to_json_path", "-", "1"),
+  ("sqlglot/parsers/snowflake.py", "SnowflakeParser._parse_lateral", "alias_", "-", "1"),
+  ("sqlglot/parsers/tsql.py", "TSQLParser._parse_projections", "alias_", "-", "1")
 ]
 
 end SqlglotModel.Levels
